@@ -17,6 +17,7 @@ OUT = os.path.join(os.path.dirname(os.path.abspath(__file__)), "..", "coq", "gen
 
 KAD = "src/protocol/libp2p/kademlia/"
 NOISE = "src/crypto/noise/mod.rs"
+ADDR = "src/transport/manager/address.rs"
 
 
 def const(name, typ=r"[\w:<>]+"):
@@ -56,11 +57,18 @@ CONSTS = [
     ("SUBSTREAM_READ_BUFFER_INIT_OTHER", "src/substream/mod.rs",
      r"std::cmp::max\(payload_size,\s*\d+\),\s*_\s*=>\s*(\d+),"),
     ("SUBSTREAM_SIZE_VEC_LEN", "src/substream/mod.rs", r"size_vec:\s*BytesMut::zeroed\((\d+)\)"),
+    # C10 (scores are i32; the two negative ones are read as magnitudes: `-100i32` -> 100, `i32::MIN` -> 2^31)
+    ("MAX_ADDRESSES", ADDR, const("MAX_ADDRESSES")),
+    ("SCORE_CONNECTION_ESTABLISHED", ADDR, const("CONNECTION_ESTABLISHED")),
+    ("SCORE_CONNECTION_FAILURE_NEG", ADDR, r"const\s+CONNECTION_FAILURE\s*:\s*i32\s*=\s*-\s*([^;]+);"),
+    ("SCORE_ADDRESS_FAILURE_NEG", ADDR, r"const\s+ADDRESS_FAILURE\s*:\s*i32\s*=\s*(i32::MIN)\s*;"),
+    ("SCORE_PUBLIC_ADDRESS_BONUS", ADDR, const("PUBLIC_ADDRESS_BONUS")),
 ]
 
 
 def eval_int(expr, names=None):
     e = re.sub(r"(?<=\d)_(?=\d)", "", expr)
+    e = e.replace("i32::MIN", "2147483648")  # magnitude of i32::MIN (only used by *_NEG constants)
     e = re.sub(r"(\d)(usize|u8|u16|u32|u64|u128|i32|i64|isize)\b", r"\1", e)
     e = re.sub(r"\bas\s+\w+", "", e)
     node = ast.parse(e.strip(), mode="eval")
